@@ -45,20 +45,28 @@ Section Handle.
   (* the upstream environment: what upstream #u returns for the wire query it is sent *)
   Variable up : nat -> res (list N) -> uout.
 
-  (* handleReq *)
+  (* forward: pack the upstream query, exchange it with upstream #u, check the reply's question, strip its OPT.
+     [None] = the Go function returned an error (nothing to relay, nothing to cache). *)
+  Definition forward_q (u : nat) (q : question) (client : addr) : option msg * list effect :=
+    let wire := pack_req ecs q client in
+    match wire with
+    | Ok _ => match up u wire with
+              | UReply r => if reply_question_ok q r then (Some (remove_opt r), [EQuery u wire])
+                            else (None, [EQuery u wire])                      (* errRespQuestionMismatch *)
+              | UFail => (None, [EQuery u wire])
+              end
+    | _ => (None, [])                                                        (* failed to pack req: no exchange *)
+    end.
+
+  (* handleReq (cache disabled) *)
   Definition handle_req (q : question) (client : addr) : msg * list effect :=
     match decide matches rules (q_name q) with
     | ARefused => (empty_resp q RCodeRefused, [])
     | AReject rc => (empty_resp q rc, [])
     | AForward u =>
-      let wire := pack_req ecs q client in
-      match wire with
-      | Ok _ => match up u wire with
-                | UReply r => if reply_question_ok q r then (remove_opt r, [EQuery u wire])
-                              else (empty_resp q RCodeServFail, [EQuery u wire])   (* errRespQuestionMismatch *)
-                | UFail => (empty_resp q RCodeServFail, [EQuery u wire])
-                end
-      | _ => (empty_resp q RCodeServFail, [])          (* failed to pack req: no exchange *)
+      match forward_q u q client with
+      | (Some r, eff) => (r, eff)
+      | (None, eff) => (empty_resp q RCodeServFail, eff)
       end
     end.
 
